@@ -52,7 +52,8 @@ EvalClauses(e) ==
 ReturnClauses(e) ==
   LET o  == [x |-> e.x, stepLt |-> e.stepLt, resLt |-> e.resLt, stag |-> e.stag, exact |-> e.exact]
       cc == ContractClauses(fl, fh, Tr.lo, Tr.hi, o)
-      judge == ~(Script /\ offt)          \* scripted environment undefined off the table: no verdict
+      judge == /\ ~(Script /\ offt)      \* scripted environment undefined off the table: no verdict
+               /\ fl \in {0 - 1, 0, 1} /\ fh \in {0 - 1, 0, 1}   \* f is NaN at an end point: not a function on the bracket
   IN [ bracketed_in_bracket   |-> judge => cc.bracketed_in_bracket,
        bracketed_meets_tol    |-> judge => cc.bracketed_meets_tol,
        endpoint_root_returned |-> judge => cc.endpoint_root_returned,
